@@ -245,7 +245,33 @@ class OsProxy:
     def scandir(self, p="."):
         raise SeamEscape("os.scandir")
 
+    def urandom(self, n):
+        # deterministic: temp names etc. must not differ between replays
+        self._urandom_ctr = getattr(self, "_urandom_ctr", 0) + 1
+        import hashlib
+        out = b""
+        while len(out) < n:
+            out += hashlib.sha256(b"tfsim%d-%d" % (self._urandom_ctr,
+                                                     len(out))).digest()
+        return out[:n]
+
     def __getattr__(self, name):
+        # constants (open flags, access modes, separators ...) and a few
+        # pure functions are the real ones; anything that touches the file
+        # system and is not modelled is a seam escape
+        if not hasattr(_os, name):
+            # e.g. getattr(os, "O_BINARY", 0) on POSIX
+            raise AttributeError("module 'os' has no attribute %r" % name)
+        if hasattr(_os, name):
+            val = getattr(_os, name)
+            if isinstance(val, (int, str, bytes, type(None))) and (
+                    name.isupper() or name in ("devnull", "pathsep",
+                                               "altsep", "extsep", "pardir",
+                                               "defpath")):
+                return val
+            if name in ("strerror", "getuid", "getgid", "geteuid",
+                        "getegid", "cpu_count", "umask", "getppid"):
+                return val
         raise SeamEscape("os.%s" % name)
 
 
